@@ -21,9 +21,22 @@ def rha_q(x, c):
 def identities(doc, t, rounding=None):
     """list of (clause, detail) that fail on the presented figures t (projected layout)."""
     cc, cur, c, rr, date = cg.doc_meta(doc)
-    if rounding is None and (doc.get("totals") or {}).get("rounding") is not None:
-        rounding = cg.parse(doc["totals"]["rounding"]).q()
     bad = []
+    late = []        # presentation of totals.rounding itself: listed after the identities
+    if rounding is None:
+        # the rounding the identity speaks of is the PRESENTED totals.rounding (projection index 17): the supplied
+        # value rounded half away from zero to the currency's decimals
+        pr = t[17] if len(t) > 17 else []
+        supplied = (doc.get("totals") or {}).get("rounding")
+        if supplied is not None:
+            want = rha_q(cg.parse(supplied).q(), c)
+            if pr == [] or q(pr) != want:
+                late.append(("totals.rounding is presented as the supplied value rounded to the currency", "%s supplied, %s presented, %s expected" % (supplied, pr, want)))
+            if pr != [] and pr[1] != c:
+                late.append(("no figure carries more decimals than the currency", "totals.rounding %s" % pr))
+        elif pr != []:
+            late.append(("totals.rounding is presented only when supplied", str(pr)))
+        rounding = None if pr == [] else q(pr)
     z = Fraction(0)
     lines = t[0]
     for i, l in enumerate(lines):
@@ -83,7 +96,7 @@ def identities(doc, t, rounding=None):
     for a in t[11] + t[12]:
         if a != [] and a[1] > c:
             bad.append(("no figure carries more decimals than the currency", "discount/charge row %s" % a))
-    return bad
+    return bad + late
 
 
 def rate_charge_excess(doc):
@@ -104,6 +117,20 @@ def base_excess(doc):
     return any("base" in x and cg.parse(x["base"]).e > c for k in ("discounts", "charges") for x in doc.get(k, []))
 
 
+def witness_docs():
+    """findings/C03.json C03-supplied-rounding-extra-decimals: ES invoice in EUR under the currency rule, 2 x 100.00 at the
+    standard VAT rate, with a supplied totals.rounding of more decimals than the currency (a tie, a value rounding to zero,
+    one rounding down), of fewer, and a negative tie."""
+    out = []
+    for r in ("0.005", "-0.004", "0.0149", "1", "-0.005"):
+        d = c01._base_doc()
+        d["tax"] = {"rounding": cg.CURRENCY}
+        d["lines"] = [{"quantity": "2", "item": {"name": "x", "price": "100.00"}, "taxes": [{"cat": "VAT", "rate": "standard"}]}]
+        d["totals"] = {"rounding": r}
+        out.append(d)
+    return out
+
+
 def run(c):
     quick = c.tier == "quick"
     if not std_builds(c):
@@ -114,6 +141,18 @@ def run(c):
     if not ok:
         c.report("extraction/oracle build failed: " + out[-800:], {"machinery": "oracle"}, no_input=True)
         return
+    # corpus first: the recorded witnesses (findings/C03.json)
+    wres = cg.run3(witness_docs())
+    c01.judge(c, wres, "corpus", prop="C03")
+    for r in wres:
+        if not r["in_domain"] or is_err(r["go"]) or r["go"][0] != b"ok":
+            c.report("corpus document does not calculate", {"document": r["doc"], "implementation": r["go_raw"]})
+            continue
+        c.count("identities-corpus", 1, json.dumps(r["doc"], sort_keys=True))
+        bad = identities(r["doc"], r["go"][1])
+        if bad:
+            c.report("presented figures do not re-add under the currency rule: %s (%s)" % bad[0],
+                     {"document": r["doc"], "implementation": r["go_raw"], "clause": bad[0][0], "all_failures": bad[:6]})
     g = cg.Gen(c.rng)
     g.doc_types = True      # a share of the documents as bill/order and bill/delivery
     g.calc_only = True      # combos that calculate but would not validate (rate key under a country without regime)
